@@ -64,6 +64,7 @@ func cmdC17Iface(c *ctx) {
 	reGlslOut := regexp.MustCompile(`layout\(location = (\d+)\)\s*(?:flat |smooth |noperspective |centroid |sample )*out\b`)
 	reHlslLoc := regexp.MustCompile(`:\s*LOC(\d+)\b`)
 	c17ComputeBuiltins(c)
+	c17SamplerPairs(c)
 	for i := 0; i < c.n; i++ {
 		stage := []string{"vertex", "fragment"}[c.rng.Intn(2)]
 		usedLoc, usedB := map[int]bool{}, map[string]bool{}
@@ -342,5 +343,68 @@ func c17ComputeBuiltins(c *ctx) {
 			}
 		}
 		c.count("compute-builtin-modules")
+	}
+}
+
+
+// GLSL has combined samplers only: every (texture, sampler) pair the WGSL samples with must become its own combined
+// uniform and appear in TranslationInfo.TextureMappings with exactly these two bindings — whether the pair is formed
+// directly in the entry point, inside a helper that names the globals, or by passing texture and sampler as arguments.
+func c17SamplerPairs(c *ctx) {
+	decl := "@group(0) @binding(0) var t1: texture_2d<f32>;\n@group(0) @binding(1) var s1: sampler;\n@group(0) @binding(2) var t2: texture_2d<f32>;\n@group(0) @binding(3) var s2: sampler;\n"
+	helpers := "fn viaGlobals(uv: vec2<f32>) -> vec4<f32> { return textureSample(t2, s2, uv); }\n" +
+		"fn viaArgs(t: texture_2d<f32>, s: sampler, uv: vec2<f32>) -> vec4<f32> { return textureSample(t, s, uv); }\n"
+	type probe struct {
+		name, body string
+		pairs      [][2]int // (texture binding, sampler binding)
+	}
+	probes := []probe{
+		{"direct", "textureSample(t1, s1, uv)", [][2]int{{0, 1}}},
+		{"direct-two-samplers", "textureSample(t1, s1, uv) + textureSample(t1, s2, uv)", [][2]int{{0, 1}, {0, 3}}},
+		{"helper-globals", "viaGlobals(uv)", [][2]int{{2, 3}}},
+		{"helper-arguments", "viaArgs(t1, s1, uv)", [][2]int{{0, 1}}},
+		{"helper-arguments-crossed", "textureSample(t1, s1, uv) + viaArgs(t1, s2, uv)", [][2]int{{0, 1}, {0, 3}}},
+		{"helper-arguments-two-calls", "viaArgs(t1, s1, uv) + viaArgs(t2, s2, uv)", [][2]int{{0, 1}, {2, 3}}},
+	}
+	for _, p := range probes {
+		src := decl + helpers + "@fragment fn fs(@location(0) uv: vec2<f32>) -> @location(0) vec4<f32> {\n  return " + p.body + ";\n}\n"
+		mod, res := frontEnd(src)
+		if mod == nil {
+			c.count("frontend-rejected")
+			c.line("rejected.txt", q(src)+" "+q(fmt.Sprint(res)))
+			continue
+		}
+		var text string
+		var got []string
+		r := guard("glsl", func() error {
+			t, info, err := glsl.Compile(mod, glsl.Options{LangVersion: glsl.Version450, EntryPoint: "fs"})
+			text = t
+			if err == nil {
+				for _, m := range info.TextureMappings {
+					sb := -1
+					if m.SamplerBinding != nil {
+						sb = int(m.SamplerBinding.Binding)
+					}
+					got = append(got, fmt.Sprintf("%d+%d", m.TextureBinding.Binding, sb))
+				}
+			}
+			return err
+		})
+		c.count("texts:glsl")
+		if r.err != "" {
+			c.line("backend-errors.txt", q("glsl: "+oneLine(r.err))+" "+q(src))
+			continue
+		}
+		var want []string
+		for _, pr := range p.pairs {
+			want = append(want, fmt.Sprintf("%d+%d", pr[0], pr[1]))
+		}
+		sort.Strings(got)
+		sort.Strings(want)
+		if strings.Join(got, ",") != strings.Join(want, ",") {
+			c.line("violations.txt", q(fmt.Sprintf("glsl: texture+sampler pairs of probe %s: reflection lists %v, the WGSL samples with %v", p.name, got, want))+" "+q(src)+" "+q(text))
+			c.count("violations")
+		}
+		c.count("sampler-pair-probes")
 	}
 }
